@@ -169,6 +169,75 @@ typedef struct {
 } c11_out;
 void c11_run(const c11_scn *scn, c11_out *out);
 
+/* ---------------- C06: events and timers ---------------- */
+/* (a) registration programming, captured at the interposed epoll_ctl/timerfd calls; no thread runs */
+#define C06_MAX_OPS 6
+typedef struct {
+	uint8_t op;		/* 0 add, 1 enable, 2 disable, 3 del */
+	uint16_t event, flags;
+	uint32_t fflags;
+	uint64_t data;
+} c06a_op;
+typedef struct {
+	uint8_t ident_kind;	/* 0 valid fd (socketpair end), 1 (uintptr_t)-1, 2 beyond the fd table, 3 arbitrary cookie (timers) */
+	uint8_t cb_null;
+	uint8_t nops;
+	c06a_op ops[C06_MAX_OPS];
+} c06a_case;
+typedef struct {
+	int rc;
+	uint32_t tfd_creates, tfd_settimes, ep_calls, ep_adds, ep_dels;
+	int tfd_clock, tfd_flags, tfd_settime_errno, ep_op;
+	uint32_t ep_events;
+	int64_t v_sec, v_nsec, i_sec, i_nsec;	/* last timerfd_settime argument */
+	uint32_t live_fds;			/* library-owned descriptors after the op */
+	uint64_t tpdata;			/* tp_udata.tpdata after the op */
+} c06a_opres;
+typedef struct {
+	int setup_rc;
+	uint32_t base_live_fds;
+	uint64_t fd_table_size;
+	c06a_opres r[C06_MAX_OPS];
+} c06a_out;
+void c06a_run(const c06a_case *c, c06a_out *out);
+
+/* (b) firing behaviour against the real kernel */
+#define C06_MAX_CH 3
+#define C06_MAX_CMDS 24
+enum { /* commands */
+	E_ADD = 1, E_ENABLE, E_DISABLE, E_DEL, E_PEER_WRITE, E_DRAIN, E_PEER_CLOSE, E_SLEEP
+};
+typedef struct {
+	uint8_t cmd, ch;
+	uint8_t outside;	/* registration call issued from outside the owning thread */
+	uint16_t flags;		/* for E_ADD / E_ENABLE: TP_F_* */
+	uint16_t arg;		/* E_SLEEP: milliseconds */
+	uint8_t wait_mask;	/* channels whose next callback the harness waits for (ceiling) before settling */
+} c06b_cmd;
+typedef struct {
+	uint8_t kind[C06_MAX_CH];	/* 0 unused, 1 read on socketpair, 2 write on socketpair, 3 timer */
+	uint16_t period_ms[C06_MAX_CH];	/* timers */
+	uint8_t ncmds;
+	c06b_cmd cmds[C06_MAX_CMDS];
+	tp_plans plans;
+} c06b_case;
+typedef struct {
+	int rc;				/* return code of the registration call (0 for harness-only commands) */
+	uint32_t fired_at_ret[C06_MAX_CH];	/* callback counters when the command returned (on the owning thread for in-thread calls) */
+	uint32_t fired_after[C06_MAX_CH];	/* after the settle window (fences through the owning thread) */
+	uint32_t fired_late[C06_MAX_CH];	/* after an additional sleep */
+	uint16_t last_flags[C06_MAX_CH];	/* ev.flags of the last callback */
+	uint32_t last_fflags[C06_MAX_CH];
+	uint8_t wrong_thread[C06_MAX_CH];	/* a callback ran on a thread other than the owner */
+} c06b_step;
+typedef struct {
+	int setup_rc, hang;
+	int never_fired_step;		/* first step whose awaited callback never came (-1 none) */
+	c06b_step s[C06_MAX_CMDS];
+	tp_res_stats res;
+} c06b_out;
+void c06b_run(const c06b_case *c, c06b_out *out);
+
 #ifdef __cplusplus
 }
 #endif
